@@ -921,7 +921,46 @@ def c19(W, replay=None):
 
 
 # ---------------------------------------------------------------------------------------------
-REGISTRY = {"C01": c01, "C02": c02, "C03": c03, "C04": c04, "C05": c05, "C07": c07, "C08": c08, "C09": c09, "C10": c10, "C11": c11, "C12": c12, "C13": c13, "C14": c14, "C15": c15, "C17": c17, "C18": c18, "C19": c19}
+# C20 TLS trust (TLSTrust / TLSTrace)
+
+
+def c20(W, replay=None):
+    W.build()
+    scen = []
+    if not replay:
+        thorough = W.tier == "thorough"
+        base = dict(MaxLen=7, MaxCfgs=3 if thorough else 2, Export="FALSE")
+        # design level: one watcher per file (as coded) breaks Rotation, one watcher per configuration keeps it
+        out, viol = W.tlc_exhaustive("TLSTrust", cfg_text("Spec", dict(base, WatcherPerFile="FALSE"), ["SkipOnlyWithoutCA", "Rotation", "OneWatcherEach"], view="view"),
+                                     "tls-design-per-config", workers=8, timeout=3000)
+        if viol:
+            raise Infra("TLSTrust with one watcher per configuration violates %s" % viol)
+        out, viol = W.tlc_exhaustive("TLSTrust", cfg_text("Spec", dict(base, WatcherPerFile="TRUE"), ["Rotation"], view="view"),
+                                     "tls-design-per-file", workers=8, timeout=3000, expect_violation=True)
+        log("[design] with one watcher per file (superseding) the model %s Rotation" % ("VIOLATES" if viol else "satisfies"))
+        out, viol = W.tlc_exhaustive("TLSTrust", cfg_text("Spec", dict(MaxLen=7, MaxCfgs=2, WatcherPerFile="FALSE", Export="TRUE"), [], view="view",
+                                                          extra="ACTION_CONSTRAINT PrintTransition\n"), "tls-transitions", workers=1, timeout=3000)
+        hs = sample(W, W.scenarios_from(out), 1500 if thorough else 160)
+        scen += [{"id": "c20/t/%d" % i, "events": h} for i, h in enumerate(hs)]
+        cfg = cfg_text("Spec", dict(MaxLen=9, MaxCfgs=3, WatcherPerFile="FALSE", Export="TRUE"), ["PrintFull"])
+        out, gen, dist, viol, d = W.tlc("TLSTrust", cfg, "tls-walks", workers=1, simulate="num=%d" % (1500 if thorough else 200),
+                                        extra=["-depth", "9", "-seed", str(W.seed)], timeout=900)
+        ws = sample(W, W.scenarios_from(out), 800 if thorough else 60)
+        scen += [{"id": "c20/w/%d" % i, "events": h} for i, h in enumerate(ws)]
+    else:
+        scen = [json.loads(l) for l in open(os.path.join(replay, "scenario.ndjson")) if l.strip()]
+    index = {s_["id"]: s_ for s_ in scen}
+    trace = W.drive("TestTLS", scen, "tls", timeout=3000)
+    v = W.validate(trace, "tls", module="TLSTrace")
+    if v["fired"].get("scenarios", 0) != len(scen):
+        raise Infra("TLSTrace judged %s scenarios, driver ran %d" % (v["fired"].get("scenarios"), len(scen)))
+    return judge("C20", W, [v], index, traces=len(scen), samples=[{"scenario": scen[0], "recorded_events": sample_events_at(trace, 3)}],
+                 assumptions=["real handshakes through the HTTP client the service builds (NewHTTPClient) against loopback servers certified by CA1 / CA2; system roots trust neither",
+                              "refresh interval 30 ms of real time; after a rewrite the driver polls up to 60 intervals for the observation to change before judging"])
+
+
+# ---------------------------------------------------------------------------------------------
+REGISTRY = {"C01": c01, "C02": c02, "C03": c03, "C04": c04, "C05": c05, "C07": c07, "C08": c08, "C09": c09, "C10": c10, "C11": c11, "C12": c12, "C13": c13, "C14": c14, "C15": c15, "C17": c17, "C18": c18, "C19": c19, "C20": c20}
 
 
 def run(prop, W, replay=None):
